@@ -32,7 +32,7 @@ extern "C" void h_name_rt(void) {
   const uint8_t tail = nondet_u8(); eb.Encode(tail);
   DecoderBuffer db; db.Init(eb.data(), eb.size());
   MetadataDecoder dec; dec.buffer_ = &db;
-  std::string out;
+  std::string out; any_name(&out);      // the output string may hold anything (e.g. the previously decoded name)
   verif_assert(dec.DecodeName(&out), "DecodeName accepts");
   verif_assert(out.size() == name.size(), "same length");
   for (uint32_t i = 0; i < MAXLEN; ++i) if (i < name.size()) verif_assert(out[i] == name[i], "name bytes survive (incl. NUL and non-ASCII)");
